@@ -529,7 +529,26 @@ pub fn run(prop: &str, seed: u64, n: usize, outdir: &str, _corpus: Option<&str>)
             sentences.push(dup); // repeated sentence
             sentences.insert(0, String::new()); // empty first line
         }
-        let out = run_case(&gd, ignore_space, mgl, &sentences, &mut rng, counting, if prop == "C04" { 3 } else { 0 }, prop);
+        // 1 dictionary in 5 (not in C10, whose other streams use the definition files as they are): the dictionary under
+        // observation has gone through a random id mapping (user lexicon loaded before or after it); the model is given
+        // the renamed rows and costs
+        let premap: Option<(Vec<u16>, Vec<u16>, bool)> = if prop != "C10" && gd.nleft >= 2 && gd.nright >= 2 && rng.chance(1, 5) {
+            let mut l: Vec<u16> = (1..gd.nleft as u16).collect();
+            let mut r: Vec<u16> = (1..gd.nright as u16).collect();
+            rng.shuffle(&mut l);
+            rng.shuffle(&mut r);
+            Some((l, r, rng.chance(1, 2)))
+        } else { None };
+        let threads = if prop == "C04" { 3 } else { 0 };
+        let (out, gd) = match &premap {
+            None => (run_case(&gd, ignore_space, mgl, &sentences, &mut rng, counting, threads, prop), gd),
+            Some((l, r, after)) => {
+                let view = gd.renamed(l, r);
+                let o = run_case_with(&view, &|| gd.build_mapped(l, r, *after), ignore_space, mgl, &sentences, &mut rng, counting, threads, prop);
+                *dist.entry("dictionary_premapped".into()).or_default() += 1;
+                (o, view)
+            }
+        };
         *dist.entry(format!("build_{}", ["ok", "err", "panic"][out.built as usize])).or_default() += 1;
         *dist.entry(format!("ignore_space_{}", ignore_space)).or_default() += 1;
         *dist.entry(format!("user_lexicon_{}", gd.user.is_some())).or_default() += 1;
@@ -771,6 +790,7 @@ pub fn corrupt_text(rng: &mut Rng, s: &str) -> String {
             return lines.join("\n") + "\n";
         }
         7 if !lines.is_empty() => { let k = rng.below(lines.len() as u64) as usize; lines[k] = lines[k].split(|c: char| c == ' ' || c == ',').next().unwrap_or("").to_string(); return lines.join("\n") + "\n"; }
+        8 if rng.chance(1, 2) => { b.extend("\n,0,0,5,a\n,0,0,6,b\n".chars()); }   // two rows with an empty first cell at the very end
         8 => { b.extend("\n0x0..0xFFFFFFFFFFFFFFFF DEFAULT\n".chars()); }
         _ => { b.extend("\nZZ 1 1\n".chars()); }
     }
